@@ -236,9 +236,10 @@ const TheoryElement& TheoryData::addElement(Id_t id, const IdSpan& terms, Id_t c
 	}
 	else {
 		POTASSCO_REQUIRE(!isNewElement(id), "Redefinition of theory element '%u'", id);
-		DestroyT()(elems()[id]);
 	}
-	return *(elems()[id] = TheoryElement::newElement(terms, cId));
+	TheoryElement* e = TheoryElement::newElement(terms, cId); // before the old element is freed: terms may be its own span
+	DestroyT()(elems()[id]); // null if the id was not in use
+	return *(elems()[id] = e);
 }
 
 const TheoryAtom& TheoryData::addAtom(Id_t atomOrZero, Id_t termId, const IdSpan& elems) {
